@@ -68,7 +68,9 @@ def replay_history(case) -> List[Tuple[str, str]]:
         # raises in every sixth case (a store error inside the snapshot writer must not abort the turn either)
         sk = case.get("storekind", 0)
         store = E.RecordingStore() if sk == 0 else E.ExportingStore(export_raises=(sk == 2))
-        state = E.mk_state(E.DEFAULT_GRAPHS, [], store=None)
+        # (run_turn variant, every other case) the state has not booted yet: the first turn runs the boot hook on the empty
+        # snapshot directory; no later turn - of whichever agent - may run it again
+        state = E.mk_state(E.DEFAULT_GRAPHS, [], store=None, boot_loaded=not (variant == "turn" and case.get("flip")))
         store.inner = state["store"]
         store.noop_ids = {DELTA_IDS[max(consts["Deltas"])]}     # a successful call may report fewer edits than deltas
         state["store"] = store
@@ -92,7 +94,10 @@ def replay_history(case) -> List[Tuple[str, str]]:
                 cm.set(ns, ("k", turn), "v")
             snap_before = _snap_listing(snapdir)
             cfg = cfg_off if step["kill"] else (cfg_on if (turn + len(ids) + case.get("flip", 0)) % 2 == 0 else cfg_on_nocache)
-            ctx = E.mk_ctx(cfg, "A", turn)
+            # in every other case a second agent joins the shared state half-way through the history (its first turn comes
+            # after commits that the newest snapshot on disk does not hold)
+            agent_ = "B" if (case.get("flip") and turn > (len(h) + 1) // 2) else "A"
+            ctx = E.mk_ctx(cfg, agent_, turn)
             if case.get("cfgonly"):
                 # the engine's own TurnCtx type carries the configuration as `cfg` only (no `config` alias)
                 delattr(ctx, "config")
